@@ -6,7 +6,9 @@ import (
 	"math"
 	"regexp"
 	"strconv"
+	"strings"
 	"testing"
+	"unicode/utf8"
 
 	"github.com/goghcrow/yae/ext"
 	"github.com/goghcrow/yae/parser/ast"
@@ -23,6 +25,10 @@ import (
 // C20 — generated SQL keeps the criteria's boolean structure and quotes literals safely.
 
 type Operand struct {
+	// Spell: how a literal is written in the criteria (the SQL form never depends on it): numbers
+	// 1 hex, 2 octal, 3 binary, 4 with a fraction ".0", 5 with an exponent (integral values below
+	// 2^31 only); strings 1 as a raw back-quoted literal (when the text allows it)
+	Spell  int    `json:"spell,omitempty"`
 	Kind   string `json:"kind"` // lit | name | member
 	V      *m.Val `json:"v,omitempty"`
 	Name   string `json:"name,omitempty"`
@@ -94,7 +100,7 @@ func (g *sqlGen) operand(ty *m.Type) Operand {
 			return Operand{Kind: "member", Name: "u", Member: members[ty.K]}
 		}
 	}
-	return Operand{Kind: "lit", V: sqlValue(g.t, ty)}
+	return Operand{Kind: "lit", V: sqlValue(g.t, ty), Spell: rapid.IntRange(0, 7).Draw(g.t, "spell")}
 }
 
 func (g *sqlGen) leaf() *Crit {
@@ -205,8 +211,27 @@ func operandAst(o Operand) ast.Expr {
 	}
 	switch o.V.T.K {
 	case m.TNum:
-		return ast.Num(numText(float64(o.V.N)), u)
+		x := float64(o.V.N)
+		if x >= 0 && x < 2147483648 && x == math.Trunc(x) {
+			n := int64(x)
+			switch o.Spell {
+			case 1:
+				return ast.Num(fmt.Sprintf("0x%X", n), u)
+			case 2:
+				return ast.Num(fmt.Sprintf("0o%o", n), u)
+			case 3:
+				return ast.Num(fmt.Sprintf("0b%b", n), u)
+			case 4:
+				return ast.Num(fmt.Sprintf("%d.0", n), u)
+			case 5:
+				return ast.Num(strconv.FormatFloat(x, 'e', -1, 64), u)
+			}
+		}
+		return ast.Num(numText(x), u)
 	case m.TStr:
+		if o.Spell == 1 && !strings.ContainsAny(o.V.S, "`\r") && utf8.ValidString(o.V.S) {
+			return ast.Str("`"+o.V.S+"`", u)
+		}
 		return ast.Str(strconv.Quote(o.V.S), u)
 	case m.TBool:
 		if o.V.B {
@@ -469,7 +494,7 @@ func checkSQL(c *SQLCase) *Outcome {
 var c20 = Register(&Prop[SQLCase]{ID: "C20", Name: "sql-structure-and-quoting", Gen: genSQLCase, Check: checkSQL})
 
 func TestC20(t *testing.T) {
-	R.Rule = "criteria trees over AND / OR (binary) / NOT to depth 5 in every parent / child combination; leaves = <> > >= < <= on num / str / time / bool columns, IN lists, BETWEEN, LIKE, IS NULL; operands: literals, names bound in the run-time environment (substituted by their values), names that are columns, member access on a bound object (its fields in a drawn order); one position in five repeats a condition or group generated earlier in the same tree; one case in three invokes the compiled criteria with a second environment and then the first again; one case in four passes the environments as Go structs; strings from a hostile pool (all three quote characters, backslashes, control characters, NUL, non-ASCII, SQL look-alikes) and random ones; finite numbers incl. > 2^53, >= 2^63, 1e21, 5e-324; oracle: the output is read back by a SQL reader with standard precedence (comparison, NOT, AND, OR) and, with same-connective nesting flattened, must be the criteria tree; each string operand is exactly one literal token that decodes to the operand, numbers are plain positional decimals that read back exactly, booleans 1 / 0, times from_unixtime(unix); non-trivial = >= 2 different connectives, or a string operand with a quote or backslash"
+	R.Rule = "criteria trees over AND / OR (binary) / NOT to depth 5 in every parent / child combination; leaves = <> > >= < <= on num / str / time / bool columns, IN lists, BETWEEN, LIKE, IS NULL; operands: literals (numbers also spelled in hex / octal / binary / with fraction or exponent, strings also as raw literals), names bound in the run-time environment (substituted by their values), names that are columns, member access on a bound object (its fields in a drawn order); one position in five repeats a condition or group generated earlier in the same tree; one case in three invokes the compiled criteria with a second environment and then the first again; one case in four passes the environments as Go structs; strings from a hostile pool (all three quote characters, backslashes, control characters, NUL, non-ASCII, SQL look-alikes) and random ones; finite numbers incl. > 2^53, >= 2^63, 1e21, 5e-324; oracle: the output is read back by a SQL reader with standard precedence (comparison, NOT, AND, OR) and, with same-connective nesting flattened, must be the criteria tree; each string operand is exactly one literal token that decodes to the operand, numbers are plain positional decimals that read back exactly, booleans 1 / 0, times from_unixtime(unix); non-trivial = >= 2 different connectives, or a string operand with a quote or backslash"
 	R.Assume = []string{"ref.ReadSQL (harness) is standard SQL precedence; faithfulness of control-character escapes under a particular SQL dialect is not checked"}
 	reportKnown(t, "C20")
 	runRegress(t, "C20")
